@@ -75,6 +75,8 @@ Reasons(e, s) ==
      [] e.ev \in {"Start", "Yield", "End"} /\ IsFail(s) ->
            {<<IF e.ev = "Start" THEN "operation-started-on-a-registry-not-handed-out" ELSE IF e.ev = "Yield" THEN "gate-not-prescribed-by-the-model" ELSE "operation-end-not-reachable", 0, 0>>}
      [] e.ev = "End" -> EndReasons(e, s)
+     \* a repetition of operation i of goroutine g (hot loops) whose reply differed from the first one: judged like the first
+     [] e.ev = "Rep" -> IF e.i < cst.pc[e.g].i /\ e.i <= Len(cst.prog[e.g]) THEN EndReasons(e, cst) ELSE {<<"operation-end-not-reachable", 0, 0>>}
      [] OTHER -> {}
 TraceInit == l = 2 /\ nrej = 0 /\ cst = C!InitState(Pad(<<>>)) /\ memo = <<>>
 Step == /\ l <= Len(Trace)
